@@ -126,6 +126,12 @@ def request_isolation(repo: Repo, run: Run) -> None:
 
 def check(repo: Repo, run: Run) -> None:
     request_isolation(repo, run)
+    # a filter removes records of other classes BEFORE pairing: the traces of the remaining calls stay the same only if what
+    # a window does with a record never depends on how many or which other records it holds (C04: unconditional appends)
+    from .c09 import window_obligations
+    window_obligations(repo, run, ("K3", "K4", "K5"),
+                       "whether a call is reported then depends on records a class filter removes, so filtering does not "
+                       "commute with decoding")
     interp = sym.Interp(repo)
     ci = repo.cls("pykdebugparser", "PyKdebugParser")
     pk = ci.module
